@@ -764,6 +764,8 @@ func TestC13(t *testing.T) {
 	}
 
 	f := newCoqFile("C13_remote_cases", []string{"RemoteWatch", "RemoteWatchCheck"}, "rwcase", "rw_mismatches")
+	// the same traces on the composed machine (the ring itself on the server side), in lockstep with RemoteWatch.step
+	f2 := newCoqFile("C13_ring_cases", []string{"RemoteWatch", "RemoteWatchCheck", "RemoteRingCheck"}, "rwcase", "rr_mismatches")
 
 	var jl []any
 
@@ -788,11 +790,13 @@ func TestC13(t *testing.T) {
 
 		if coq != "" {
 			f.add(coq)
+			f2.add(coq)
 			jl = append(jl, map[string]any{"case": c})
 		}
 	}
 
 	f.finishSharded(t, dir, rep, jl, 400)
-	rep.Assumptions = append(rep.Assumptions, "the in-memory transport delivers messages in order and fails only between messages; buffer capacity is fixed (initial = maximum) so the window test is a function of the log length")
+	f2.finishSharded(t, dir, rep, jl, 400)
+	rep.Assumptions = append(rep.Assumptions, "the composed replay (C13_ring_cases) applies to unselected kind watches without a server-reported overrun; its server-side watcher fetches after every commit (fetch times are not observable)", "the in-memory transport delivers messages in order and fails only between messages; buffer capacity is fixed (initial = maximum) so the window test is a function of the log length")
 	rep.write(t, dir)
 }
